@@ -7,6 +7,8 @@ def run(ctx):
     bc.exhaustive(ctx, ["Batch_mc%d.cfg" % n])
     binary = ctx.build_driver("batch")
     cases, nviol = bc.replay_cases(ctx, "Batch_gen%d.cfg" % n, binary, focus={"called", "resp", "hdr", "panic"})
+    # the same with an application's item middleware that retries a failed item once (outcome retriedSuccess)
+    bc.replay_cases(ctx, "Batch_gen_retry.cfg", binary, focus={"called", "resp", "hdr", "panic"}, env={"VERIF_RETRY": 1})
     env = {"VERIF_NSEQ": 1500 if ctx.quick else 20000, "VERIF_NCONN": 300 if ctx.quick else 3000, "VERIF_G": 4, "VERIF_K": 50 if ctx.quick else 500,
            "VERIF_MAXITEMS": 12 if ctx.quick else 24}
     log, nreq = bc.record_and_validate(ctx, binary, env, "long")
